@@ -140,6 +140,7 @@ class FnTir:
         self.sinks = {}        # local name -> "writer" | "buffer"
         self.env = {}          # local name -> string-TIR of its initialiser, evaluated at the let (scoping/shadowing respected)
         self.env_expr = {}     # local name -> initialiser expression (latest binding; for guards that mention a local)
+        self.env_closures = {}  # local name -> closure expression bound by `let f = |..| {..}`
         self.params = []
         self.unknown = []      # constructs outside the supported fragment (reported by rules that depend on them)
         for p in self.fn.get("params") or []:
@@ -206,6 +207,9 @@ class FnTir:
                     # let mut typ = "interval".to_string();  -> a buffer with initial contents
                     self.sinks[pat["name"]] = "buffer"
                     return ("w", pat["name"], self.S(init))
+                if pat.get("k") == "bind" and pi.get("k") == "closure":
+                    self.env_closures[pat["name"]] = pi
+                    return ("seq", [])
                 items.append(self.W(init))
                 if pat.get("k") == "bind" and pat.get("mut"):
                     pass    # a mutable local (counter, flag): its value at a use site is not its initialiser
@@ -364,6 +368,22 @@ class FnTir:
             for j, a in enumerate(all_args):
                 if a.get("k") == "closure":
                     closures[j] = a
+                elif H.peel_ref(a).get("k") == "local" and H.peel_ref(a).get("name") in self.env_closures:
+                    closures[j] = self.env_closures[H.peel_ref(a)["name"]]
+            for j, c in closures.items():
+                # a closure handed to another renderer (it is called back with the sink): its writes happen somewhere
+                # inside the callee - kept as an optional, repeatable block right after the call
+                saved = dict(self.sinks)
+                for cp in c.get("params") or []:
+                    pt = self.f.ty(cp.get("ty")) or ""
+                    if cp["pat"].get("k") == "bind" and any(w in pt for w in WRITER_TYPES):
+                        self.sinks[cp["pat"]["name"]] = "writer"
+                        cb = self.W(c["body"])
+                        # writes to the closure's own writer parameter are writes to the sink that was handed over
+                        cb = rename_sink(cb, cp["pat"]["name"], s)
+                        if has_writes(cb):
+                            items.append(("loop", cb, {"kind": "closure-arg", "over": "", "sp": c.get("sp")}))
+                self.sinks = saved
             items.append(("w", s, ("call", callee, {"resolved": e.get("resolved"), "recv": text(recv) if recv is not None else None,
                                                       "recv_ty": self.f.ty(e.get("recv_ty")) if e.get("recv_ty") is not None else None,
                                                       "args": [text(a) for a in args], "arg_nodes": all_args, "sink_index": i, "is_method": k == "mcall",
@@ -518,6 +538,19 @@ class FnTir:
         if "dyn crate::types::Iden" in t or t.startswith("crate::types::SeaRc<"):
             return ("hole", "IDEN_DISPLAY", {"what": what}, sp)
         return ("hole", "DISPLAY", {"what": what, "ty": t}, sp)
+
+
+def rename_sink(E, old, new):
+    k = E[0]
+    if k == "w":
+        return ("w", new if E[1] == old else E[1], E[2])
+    if k == "seq":
+        return ("seq", [rename_sink(x, old, new) for x in E[1]])
+    if k == "alt":
+        return ("alt", [(g, rename_sink(x, old, new)) for g, x in E[1]])
+    if k == "loop":
+        return ("loop", rename_sink(E[1], old, new), E[2])
+    return E
 
 
 def has_effects(E):
